@@ -150,7 +150,7 @@ func runC20F(c *core.Ctx) {
 	fd.HoldFor = 0 // a stalled caller resumes when nothing else can run: the clock stands still during a phase, so every call has one time
 	fd.S.Install()
 	defer fd.S.Uninstall()
-	defer fd.S.Off()
+	defer fd.Finish(c)
 	defer func() {
 		c.SetInterleaving(fd.S.Hash(), fd.S.Steps())
 		c.FaultN("schedule:goroutine-stalled", fd.Holds)
